@@ -158,6 +158,9 @@ type userProfile struct {
 	DisplayName         string
 	Username            string
 	WebauthnSessionData *webauthn.SessionData
+
+	// Not serialised: version of the stored profile when it was loaded.
+	loadedVersion uint64
 }
 
 type localUserData struct {
@@ -207,6 +210,8 @@ type RuntimeState struct {
 	gitDB                        *gitdb.UserInfo
 	pendingOauth2                map[string]pendingAuth2Request
 	storageRWMutex               sync.RWMutex
+	profileVersionMutex          sync.Mutex
+	profileVersion               map[string]uint64
 	db                           *sql.DB
 	dbType                       string
 	cacheDB                      *sql.DB
